@@ -98,6 +98,9 @@ def gen_case(rng, cid):
             body = "    %s    %s %s\n    %s    %s %s\n" % (a1, dec_str(v), c1, a2, dec_str(-v), c1)
         else:  # zero_entry: an explicit zero amount in a commodity (must still be convertible with --historical)
             body = "    %s    0 %s\n    %s    %s %s\n    Equity\n" % (a1, c2, a2, dec_str(v), c1)
+        if rng.random() < 0.25:
+            # an effective date in the header: postings and the transaction's own rates stay dated by the transaction date
+            d += "=" + (BASE + datetime.timedelta(days=o + rng.choice([-9, -2, 2, 9, 30]))).strftime("%Y/%m/%d")
         txns.append("%s txn %d\n%s" % (d, i, body))
     # price db: star around the first commodity plus random extra lines, dated around the transactions; sometimes sparse
     db, pdb = [], []
